@@ -88,16 +88,19 @@ def to_smt2(ob, lemma_names=(), extra=()):
 
 
 Z3_STRATEGIES = (
-    ('z3-5.1.0[ematch,arith2]', ['smt.mbqi=false', 'smt.arith.solver=2'], 0.25),
-    ('z3-5.1.0[ematch]', ['smt.mbqi=false'], 0.25),
-    ('z3-5.1.0', [], 0.5),
+    # (name, binary, options, share of the budget, accept `sat` as a refutation?)
+    ('z3-5.1.0[ematch,arith2]', 'z3-new', ['smt.mbqi=false', 'smt.arith.solver=2'], 0.15, False),
+    ('z3-5.1.0[ematch]', 'z3-new', ['smt.mbqi=false'], 0.15, False),
+    ('z3-4.8.12', '/usr/bin/z3', [], 0.2, True),
+    ('z3-5.1.0', 'z3-new', [], 0.5, True),
 )
 
 
 def _solve_z3(args):
-    """Portfolio over z3 5.1 option sets (CLI, hard -T limits).  unsat from any strategy is a proof; sat is only
-    accepted from the default strategy (with MBQI off "sat" just means no more instances)."""
-    text, timeout_ms, want_model = args
+    """Portfolio over z3 5.1 option sets and z3 4.8.12 (CLI, hard -T limits).  unsat from any member is a proof; sat
+    is only accepted from members that run with MBQI (without it "sat" just means no more instances)."""
+    text, timeout_ms, want_model = args[:3]
+    hint = args[3] if len(args) > 3 else None
     t0 = time.time()
     with tempfile.NamedTemporaryFile('w', suffix='.smt2', delete=False) as fh:
         fh.write(text)
@@ -106,17 +109,18 @@ def _solve_z3(args):
         path = fh.name
     try:
         last = ('unknown', '', 'timeout')
-        for name, opts, share in Z3_STRATEGIES:
+        order = sorted(Z3_STRATEGIES, key=lambda s_: 0 if s_[0] == hint else 1)     # performance hint only (which member proved it last time)
+        for name, binary, opts, share, accept_sat in order:
             tl = max(1, int(timeout_ms * share / 1000))
             try:
-                p = subprocess.run(['z3-new', f'-T:{tl}', *opts, path], capture_output=True, text=True, timeout=tl + 10)
+                p = subprocess.run([binary, f'-T:{tl}', *opts, path], capture_output=True, text=True, timeout=tl + 10)
             except subprocess.TimeoutExpired:
                 continue
             out = (p.stdout or '').strip()
             first = out.splitlines()[0].strip() if out else 'unknown'
             if first == 'unsat':
                 return 'unsat', time.time() - t0, '', name
-            if first == 'sat' and not opts:
+            if first == 'sat' and accept_sat:
                 return 'sat', time.time() - t0, out[3:20000], name
             last = ('unknown', '', first)
         return last[0], time.time() - t0, '', last[2]
@@ -152,11 +156,36 @@ def _solve_cli(text, tool, timeout_s):
 
 def _solve_fallback(args):
     text, timeout_s = args
-    for tool in ('z3-old', 'cvc5'):
+    for tool in ('cvc5',):
         r, t = _solve_cli(text, tool, timeout_s)
         if r in ('sat', 'unsat'):
             return r, t, tool
     return 'unknown', 0.0, ''
+
+
+HINTS_FILE = os.path.join(os.path.dirname(os.path.dirname(os.path.abspath(__file__))), 'solver_hints.json')
+
+
+def _load_hints():
+    try:
+        import json
+        with open(HINTS_FILE) as fh:
+            return json.load(fh)
+    except Exception:
+        return {}
+
+
+def save_hints(results):
+    """remember which portfolio member proved each obligation (ordering hint for the next run; no effect on verdicts)."""
+    import json
+    h = _load_hints()
+    for r in results:
+        if r.status == 'proved' and not r.backend.startswith('z3-5.1.0[ematch,arith2]'):
+            h[r.ob.name] = r.backend
+        elif r.status == 'proved':
+            h.pop(r.ob.name, None)
+    with open(HINTS_FILE, 'w') as fh:
+        json.dump(dict(sorted(h.items())), fh, indent=0)
 
 
 class Result:
@@ -178,7 +207,9 @@ def discharge(obligations, lemma_map=None, timeout_s=10, procs=None, fallback=Tr
         lem = getattr(ob, 'lemmas', ()) or ()
         text, ax = to_smt2(ob, lem)
         texts.append((text, ax))
-    jobs = [(t, int(timeout_s * 1000) if ob.kind == 'vc' else 3000, ob.expect == 'unsat') for (t, _), ob in zip(texts, obligations)]
+    hints = _load_hints()
+    jobs = [(t, int(timeout_s * 1000) if ob.kind == 'vc' else 3000, ob.expect == 'unsat', hints.get(ob.name))
+            for (t, _), ob in zip(texts, obligations)]
     from multiprocessing.pool import ThreadPool
     with ThreadPool(procs) as pool:
         raw = pool.map(_solve_z3, jobs, chunksize=1)
